@@ -6,7 +6,7 @@ import ctximpl
 
 KIND = "ctx"
 SPECS = ["C15"]
-THEOREMS = []
+THEOREMS = ["C15.refinement", "C15.spec"]
 LEAN_MODULES = ["TbotVerif.Props.C15"]
 QUICK_N, THOROUGH_N = 6000, 90000
 QUICK_BUDGET, THOROUGH_BUDGET = 45, 600
